@@ -85,6 +85,10 @@ pub fn compile(cx: Cx, log: &Arc<TruthLog>, h: &H, y: i32) -> BoxH {
             }
         }
         H::Seq(a, b) => Box::new(compile(cx, log, a, y).followed_by(compile(cx, log, b, y))),
+        H::Then(a, b) => {
+            let (log2, b) = (log.clone(), b.clone());
+            Box::new(compile(cx, log, a, y).and_then(move |_: ()| compile(cx, &log2, &b, y)))
+        }
         H::Fail => Box::new(cx.fail::<(), _>(std::io::Error::new(std::io::ErrorKind::Other, "requested failure"))),
         H::Suspend(t, body) => {
             let (log, t, body) = (log.clone(), *t, body.clone());
